@@ -143,7 +143,7 @@ impl Directive {
             }
             Directive::Undef => {
                 if let DirectiveOps::OpList(values) = opts {
-                    if let Operand::E(Expr::Ident(name)) = &values[0] {
+                    if let Some(Operand::E(Expr::Ident(name))) = values.get(0) {
                         context.push_to_last((point, Item::Undef(name.clone())))
                     } else {
                         bail!("Not allowed type of arguments for .{}, {}", self, point);
@@ -164,7 +164,7 @@ impl Directive {
                     if args.len() > 1 {
                         bail!("Too many arguments for {}", self);
                     }
-                    if let Operand::E(expr) = &args[0] {
+                    if let Some(Operand::E(expr)) = args.get(0) {
                         if let Expr::Const(n) = expr {
                             context.push_to_last((point, Item::ReserveData(*n)));
                         }
@@ -184,7 +184,7 @@ impl Directive {
             }
             Directive::Org => {
                 if let DirectiveOps::OpList(values) = opts {
-                    if let Operand::E(Expr::Const(value)) = &values[0] {
+                    if let Some(Operand::E(Expr::Const(value))) = values.get(0) {
                         if !context.last_segment().unwrap().borrow().is_empty() {
                             let current_type = context.last_segment().unwrap().borrow().t;
                             context.add_segment(Segment::new(current_type));
@@ -214,7 +214,7 @@ impl Directive {
             }
             Directive::Device => {
                 if let DirectiveOps::OpList(values) = opts {
-                    if let Operand::E(Expr::Ident(value)) = &values[0] {
+                    if let Some(Operand::E(Expr::Ident(value))) = values.get(0) {
                         if let Some(device) = DEVICES.get(value.as_str()) {
                             if let Some(old_device) = context
                                 .common_context
@@ -247,7 +247,7 @@ impl Directive {
             }
             Directive::Include => {
                 if let DirectiveOps::OpList(values) = &opts {
-                    if let Operand::S(include) = &values[0] {
+                    if let Some(Operand::S(include)) = values.get(0) {
                         let context = ParseContext {
                             current_path: PathBuf::from(include),
                             include_paths: include_paths.clone(),
@@ -266,7 +266,7 @@ impl Directive {
             }
             Directive::IncludePath => {
                 if let DirectiveOps::OpList(values) = &opts {
-                    if let Operand::S(include) = &values[0] {
+                    if let Some(Operand::S(include)) = values.get(0) {
                         let path = PathBuf::from(include);
                         let path = if path.is_relative() {
                             let mut current_path = current_path.parent().unwrap().to_path_buf();
@@ -295,7 +295,7 @@ impl Directive {
             }
             Directive::If | Directive::ElIf => {
                 if let DirectiveOps::OpList(values) = &opts {
-                    if let Operand::E(expr) = &values[0] {
+                    if let Some(Operand::E(expr)) = values.get(0) {
                         let value = expr.run(&context.common_context)?;
                         if value == 0 {
                             next_item = NextItem::EndIf;
@@ -319,7 +319,7 @@ impl Directive {
             }
             Directive::IfNDef | Directive::IfDef => {
                 if let DirectiveOps::OpList(values) = &opts {
-                    if let Operand::E(Expr::Ident(name)) = &values[0] {
+                    if let Some(Operand::E(Expr::Ident(name))) = values.get(0) {
                         if context.common_context.defines.borrow().contains_key(name) {
                             if self == &Directive::IfNDef {
                                 next_item = NextItem::EndIf;
@@ -348,7 +348,7 @@ impl Directive {
             }
             Directive::Define => {
                 if let DirectiveOps::OpList(values) = &opts {
-                    if let Operand::E(Expr::Ident(name)) = &values[0] {
+                    if let Some(Operand::E(Expr::Ident(name))) = values.get(0) {
                         context
                             .common_context
                             .set_define(name.clone(), Expr::Const(0));
@@ -368,7 +368,7 @@ impl Directive {
             }
             Directive::Macro => {
                 if let DirectiveOps::OpList(values) = &opts {
-                    if let Operand::E(Expr::Ident(name)) = &values[0] {
+                    if let Some(Operand::E(Expr::Ident(name))) = values.get(0) {
                         context.macros.name.replace(name.clone());
                         next_item = NextItem::EndMacro;
                     } else {
@@ -382,7 +382,7 @@ impl Directive {
             Directive::CSegSize => {}
             Directive::Message | Directive::Warning | Directive::Error => {
                 if let DirectiveOps::OpList(values) = &opts {
-                    if let Operand::S(message) = &values[0] {
+                    if let Some(Operand::S(message)) = values.get(0) {
                         let message_type = match self {
                             Directive::Message => "info",
                             Directive::Warning => "warning",
